@@ -11,8 +11,9 @@ SPECIAL_NAMES = ["size", "name", "bin", "lower", "ext", "path", "x.bin", "y.size
 BOOL_COLS = ["is_dir", "is_file", "is_symlink", "is_hidden", "is_empty", "user_read", "user_write", "user_exec",
              "user_all", "group_read", "group_write", "group_exec", "group_all", "other_read", "other_write",
              "other_exec", "other_all", "suid", "sgid", "is_pipe", "is_socket", "is_char", "is_block"]
-NUM_COLS = ["size", "uid", "gid", "hardlinks", "line_count", "length(name)"]
-TEXT_COLS = ["name", "path", "ext", "dir", "mode"]
+NUM_COLS = ["size", "uid", "gid", "hardlinks", "line_count", "length(name)", "inode", "blocks"]
+TEXT_COLS = ["name", "path", "ext", "dir", "mode", "abspath", "absdir"]
+EXT_BOOLS = ["is_archive", "is_audio", "is_book", "is_doc", "is_font", "is_image", "is_source", "is_video"]
 NUM_OPS = ["=", "==", "eq", "!=", "<>", "ne", "===", "!==", ">", "gt", ">=", "gte", "ge", "<", "lt", "<=", "lte", "le"]
 TEXT_OPS = ["=", "==", "eq", "!=", "<>", "ne", "===", "!==", "=~", "~=", "regexp", "rx", "!=~", "!~=", "like",
             "not like"]
@@ -111,7 +112,7 @@ def gen_condition(rng, snap, prefix):
             return model.compare("text", op, model.col_value(e, col, prefix)[1], lit)
         return "%s %s %s" % (col, op, model.quote_lit(lit)), pred, ("text", c, "glob" if model.is_glob(lit) else "plain")
     if kind == "bool":
-        col = rng.choice(BOOL_COLS)
+        col = rng.choice(BOOL_COLS + (EXT_BOOLS if model.EXT_LISTS else []))
         op = rng.choice(BOOL_OPS)
         word = rng.choice(list(model.BOOL_LITS))
         lit = model.BOOL_LITS[word]
@@ -199,6 +200,12 @@ def run_job(job):
         root = os.path.join(w, "t")
         os.mkdir(root)
         build_tree(rng, root)
+        # the default extension lists are the ones fselect writes into a fresh configuration
+        runner.run(["name from t limit 1 into list"], cwd=w, home=home)
+        try:
+            model.load_ext_lists(os.path.join(home, ".config/fselect/config.toml"))
+        except (OSError, KeyError, ImportError):
+            pass
         snap = tree.snapshot(root)
         shape = tree.shape_key(snap)
         universe = set(e.abs for e in snap)
